@@ -83,7 +83,7 @@ func c10Args(maxN int) py.Tuple {
 //verif:timeout 600 3600
 //verif:maxpaths 600000 8000000
 //verif:runinit github.com/go-python/gpython/py.init@type.go:1 github.com/go-python/gpython/py.init@exception.go:1
-//verif:havoc math.Pow math.Mod math/cmplx.Pow math.Exp math.Log math.Sincos math.Sin math.Cos math.Atan2
+//verif:havoc math.Pow math.Mod math/cmplx.Pow math.Exp math.Log math.Sincos math.Sin math.Cos math.Atan2 strconv.FormatFloat strconv.AppendFloat strconv.ParseFloat
 //verif:expect called
 func VerifC10BuiltinCalls() {
 	m := c10Builtins()
@@ -110,7 +110,7 @@ func VerifC10BuiltinCalls() {
 //verif:timeout 600 3600
 //verif:maxpaths 600000 8000000
 //verif:runinit github.com/go-python/gpython/py.init@type.go:1 github.com/go-python/gpython/py.init@exception.go:1
-//verif:havoc math.Pow math.Mod math/cmplx.Pow math.Exp math.Log math.Sincos math.Sin math.Cos math.Atan2
+//verif:havoc math.Pow math.Mod math/cmplx.Pow math.Exp math.Log math.Sincos math.Sin math.Cos math.Atan2 strconv.FormatFloat strconv.AppendFloat strconv.ParseFloat
 //verif:expect called
 func VerifC10BuiltinKeywords() {
 	m := c10Builtins()
@@ -129,7 +129,7 @@ func VerifC10BuiltinKeywords() {
 //verif:timeout 600 3600
 //verif:maxpaths 600000 8000000
 //verif:runinit github.com/go-python/gpython/py.init@type.go:1 github.com/go-python/gpython/py.init@exception.go:1
-//verif:havoc math.Pow math.Mod math/cmplx.Pow math.Exp math.Log math.Sincos math.Sin math.Cos math.Atan2
+//verif:havoc math.Pow math.Mod math/cmplx.Pow math.Exp math.Log math.Sincos math.Sin math.Cos math.Atan2 strconv.FormatFloat strconv.AppendFloat strconv.ParseFloat
 //verif:expect called
 func VerifC10BuiltinWeird() {
 	m := c10Builtins()
